@@ -243,6 +243,28 @@ Theorem C19_receipts_root_binding :
 Proof. exact receipts_root_binding. Qed.
 Print Assumptions C19_receipts_root_binding.
 
+(** * Genesis info through the chain DB (chain/chaindb.go addGenesisBlock / GetGenesisInfo) *)
+From Verif Require Import Codec.GenesisStore Codec.GenesisStoreProofs.
+
+(** Whatever ChainID.Read returns on the output of ChainID.Bytes is the chain id written
+    (with a '/' in magic or consensus it returns an error, never a different id). *)
+Theorem C19_chain_id_read_bytes_sound : forall c c',
+  (cid_version c < 2 ^ 32)%N -> chain_id_read (chain_id_bytes c) = Some c' -> c' = c.
+Proof. exact chain_id_read_bytes_sound. Qed.
+Print Assumptions C19_chain_id_read_bytes_sound.
+
+(** What is stored at genesis is read back at start-up, for every chain id (an id that Read
+    cannot parse falls back to the stored copy), timestamp, producer list and non-zero total. *)
+Theorem C19_genesis_info_roundtrip : forall g,
+  (cid_version (g_id g) < 2 ^ 32)%N -> g_total g <> Some 0%N -> get_genesis (add_genesis g) = g.
+Proof. exact genesis_info_roundtrip. Qed.
+Print Assumptions C19_genesis_info_roundtrip.
+
+Theorem C19_genesis_zero_total_reads_absent : forall id ts bps,
+  g_total (get_genesis (add_genesis (mk_genesis_info id ts bps (Some 0%N)))) = None.
+Proof. exact genesis_zero_total_reads_absent. Qed.
+Print Assumptions C19_genesis_zero_total_reads_absent.
+
 (** * Hardfork versions *)
 
 Theorem C19_fieldlists_hardfork : gen_struct_HardforkConfig = ["V2"; "V3"; "V4"; "V5"].
